@@ -481,3 +481,41 @@ mut("imm_tombstone_falls_through", ["C01"], "verdict-stops-search", file="src/db
 mut("wal_gc_uses_optimistic_wal_number", ["C11", "C08", "C03"], "GRD-5", file="src/db.rs",
     old="""                                wal_number >= db_fields_guard.version_set.get_curr_wal_number();""",
     new="""                                wal_number >= db_fields_guard.curr_wal_file_number;""")
+
+# ---- PAIR-7 / GRD-11 / GRD-6
+mut("two_level_seek_does_not_skip_empty_blocks", ["C13", "C04"], "PAIR-7", file="src/tables/table.rs",
+    old="""            self.maybe_data_block_iter.as_mut().unwrap().seek(target)?;
+        }
+
+        self.skip_empty_data_blocks_forward()?;
+""",
+    new="""            self.maybe_data_block_iter.as_mut().unwrap().seek(target)?;
+        }
+""")
+mut("merging_prev_picks_smallest", ["C04"], "PAIR-7", file="src/versioning/file_iterators.rs",
+    old="""        self.reverse_current_iterator();
+        self.find_largest();""",
+    new="""        self.reverse_current_iterator();
+        self.find_smallest();""")
+mut("files_iterator_seek_to_last_skips_forward", ["C04", "C13"], "PAIR-7", file="src/versioning/file_iterators.rs",
+    old="""            self.current_table_iter.as_mut().unwrap().seek_to_last()?;
+        }
+
+        self.skip_empty_table_files_backward()?;""",
+    new="""            self.current_table_iter.as_mut().unwrap().seek_to_last()?;
+        }
+
+        self.skip_empty_table_files_forward()?;""")
+mut("reopen_offset_only_for_multi_block_files", ["C12", "C16"], "GRD-11", file="src/logs.rs",
+    old="""        if log_file_size > 0 {
+            block_offset = log_file_size % BLOCK_SIZE_BYTES;""",
+    new="""        if log_file_size > BLOCK_SIZE_BYTES {
+            block_offset = log_file_size % BLOCK_SIZE_BYTES;""")
+mut("short_header_is_parsed", ["C12", "C16", "C02"], "GRD-6", file="src/logs.rs",
+    old="""        if header_bytes_read < HEADER_LENGTH_BYTES {""", new="""        if header_bytes_read == 0 {""")
+benign("reopen_offset_unconditional", ["C12", "C16"], "src/logs.rs",
+       """        if log_file_size > 0 {
+            block_offset = log_file_size % BLOCK_SIZE_BYTES;
+        }""",
+       """        block_offset = log_file_size % BLOCK_SIZE_BYTES;
+        log::debug!("Continuing at block offset {}", block_offset);""")
